@@ -10,19 +10,29 @@ import (
 	"github.com/platinummonkey/go-concurrency-limits/limit"
 )
 
-// blockUntilSignaled will wait for context cancellation, an unblock signal or timeout
-// This method will return true if we were successfully signalled.
-func blockUntilSignaled(ctx context.Context, c *sync.Cond, timeout time.Duration) bool {
+// armSignal registers a helper goroutine on the condition and returns a channel that is closed when the
+// condition is next signalled. It returns only once the helper holds the condition's lock on its way into
+// Wait, so a Broadcast made under that lock afterwards cannot be missed.
+func armSignal(c *sync.Cond) <-chan struct{} {
 	ready := make(chan struct{})
+	armed := make(chan struct{})
 
 	go func() {
 		verifPoint("block.childStart")
 		c.L.Lock()
 		defer c.L.Unlock()
+		close(armed)
 		c.Wait()
 		close(ready)
 	}()
 
+	<-armed
+	return ready
+}
+
+// waitSignal will wait for context cancellation, the ready signal or timeout
+// This method will return true if we were successfully signalled.
+func waitSignal(ctx context.Context, ready <-chan struct{}, timeout time.Duration) bool {
 	if timeout > 0 {
 		// use NewTimer over time.After so that we don't have to
 		// wait for the timeout to elapse in order to release memory
@@ -45,6 +55,12 @@ func blockUntilSignaled(ctx context.Context, c *sync.Cond, timeout time.Duration
 	case <-ready:
 		return true
 	}
+}
+
+// blockUntilSignaled will wait for context cancellation, an unblock signal or timeout
+// This method will return true if we were successfully signalled.
+func blockUntilSignaled(ctx context.Context, c *sync.Cond, timeout time.Duration) bool {
+	return waitSignal(ctx, armSignal(c), timeout)
 }
 
 // BlockingLimiter implements a Limiter that blocks the caller when the limit has been reached.  The caller is
@@ -100,7 +116,15 @@ func (l *BlockingLimiter) tryAcquire(ctx context.Context) (core.Listener, bool) 
 		// - A timeout
 		// - The context is cancelled
 		l.logger.Debugf("Blocking waiting for release or timeout ctx=%v", ctx)
-		if shouldAcquire := blockUntilSignaled(ctx, l.c, l.timeout); shouldAcquire {
+		// Register for the release signal first and check once more: a release that happens between
+		// a failed attempt and the wait would otherwise be lost.
+		ready := armSignal(l.c)
+		listener, ok = l.delegate.Acquire(ctx)
+		if ok && listener != nil {
+			l.logger.Debugf("delegate returned a listener ctx=%v", ctx)
+			return listener, true
+		}
+		if shouldAcquire := waitSignal(ctx, ready, l.timeout); shouldAcquire {
 			listener, ok := l.delegate.Acquire(ctx)
 			if ok && listener != nil {
 				l.logger.Debugf("delegate returned a listener ctx=%v", ctx)
